@@ -22,6 +22,23 @@ ShapeFails(o) ==
 \* o.ctd: probes at which the hit test through the ContainsPoint trait differs from the inherent contains()
 \cup (IF o.ctd = <<>> THEN {} ELSE {"contains_through_the_trait_differs"})
 
+\* A very large shape (o.bbox at least 3 x 3 for the curved kinds): probes <<x, y, contains>> - false outside the bounding
+\* box, false at the four corner pixels of a circle / ellipse, true at the centre; the first points lie in the box in
+\* row-major order
+BigFails(o) ==
+  LET b == o.bbox
+      corner(p) == p[1] \in {b[1], b[1] + b[3] - 1} /\ p[2] \in {b[2], b[2] + b[4] - 1}
+      centre(p) == p[1] \in {b[1] + (b[3] - 1) \div 2, b[1] + b[3] \div 2} /\ p[2] \in {b[2] + (b[4] - 1) \div 2, b[2] + b[4] \div 2}
+  IN   (IF \A i \in 1..Len(o.probes) : InRect(b, <<o.probes[i][1], o.probes[i][2]>>) \/ o.probes[i][3] = 0
+        THEN {} ELSE {"contains_true_outside_bbox"})
+  \cup (IF o.kind \in {"circle", "ellipse"} /\ \E i \in 1..Len(o.probes) : corner(<<o.probes[i][1], o.probes[i][2]>>) /\ o.probes[i][3] = 1
+        THEN {"big_curve_contains_its_box_corner"} ELSE {})
+  \cup (IF \A i \in 1..Len(o.probes) : centre(<<o.probes[i][1], o.probes[i][2]>>) => o.probes[i][3] = 1
+        THEN {} ELSE {"big_shape_misses_its_centre"})
+  \cup (IF /\ \A i \in 1..Len(o.first) : InRect(b, o.first[i])
+           /\ \A i \in 1..(Len(o.first) - 1) : RMLess(o.first[i], o.first[i + 1])
+        THEN {} ELSE {"big_first_points"})
+
 \* points() observed through other Iterator methods (o.proto, recorded when next() showed the sequence o.pr of o.np
 \* points to be finite): they all describe the same sequence
 ProtoFails(o) ==
